@@ -1345,6 +1345,7 @@ func ruleC19NoCrash(c *Ctx) {
 			return false
 		}
 		file := c.fileOf(f)
-		return file == "output.go" || file == "footnotes.go"
+		// … and of the descriptions the footnotes are made of
+		return file == "output.go" || file == "footnotes.go" || file == "path_resolver.go"
 	}, boundsExceptions)
 }
